@@ -215,8 +215,21 @@ func randomEndgame(rng *rand.Rand) Root {
 // RootClass names of genRoot.
 var rootClasses = []string{"bench", "bench-play", "start-play", "curated", "curated-play", "shuffle2", "shuffle3", "shuffle-ep", "fifty", "fifty-long", "endgame", "captures", "promo-race"}
 
-// genRoot draws a root of the given class ("" = weighted random class).
+// genRoot draws a root of the given class ("" = weighted random class). Every
+// root is validated by the reference model; an invalid one is a harness bug.
 func genRoot(rng *rand.Rand, class string) Root {
+	r := genRootUnchecked(rng, class)
+	p, err := ref.ParseFEN(r.FEN)
+	if err == nil {
+		err = p.Valid()
+	}
+	if err != nil {
+		panic(fmt.Sprintf("harness bug: generated root %q (%s) is not a valid position: %v", r.FEN, r.Tag, err))
+	}
+	return r
+}
+
+func genRootUnchecked(rng *rand.Rand, class string) Root {
 	if class == "" {
 		weights := []int{12, 12, 12, 10, 8, 6, 6, 3, 5, 1, 12, 5, 4}
 		t := 0
@@ -324,7 +337,7 @@ func genRoot(rng *rand.Rand, class string) Root {
 		fen := pick(rng, []string{
 			"8/P6k/8/8/8/8/p6K/8 w - - 0 1",
 			"8/1P3k2/8/8/8/8/2p2K2/8 b - - 0 1",
-			"4k3/PPPP4/8/8/8/8/pppp4/4K3 w - - 0 1",
+			"4k3/PPP5/8/8/8/8/ppp5/4K3 w - - 0 1",
 			"r3k3/1P6/8/8/8/8/6p1/4K2R w K - 0 1",
 		})
 		g := ref.NewGame(ref.MustFEN(fen))
